@@ -46,9 +46,9 @@ TStep == /\ Internal
 \* the pump makes the call of event l
 TCall == /\ cpc = "idle" /\ l <= N
          /\ CASE ev.op = "Start"   -> CallStart(ev.side)
-              [] ev.op = "Next"    -> CallNext(ev.side)
-              [] ev.op = "Deliver" -> /\ wire[ev.side] # << >>        \* the harness hands over the whole chunk when k is too large
-                                      /\ CallDeliver(ev.side, IF ev.k >= Len(Head(wire[ev.side]).units) THEN 0 ELSE ev.k)
+              [] ev.op = "Next"    -> CallNextL(ev.side, ev.ml)            \* ml: the real byte length of every message of a WriteData
+              [] ev.op = "Deliver" -> /\ wire[ev.side] # << >>        \* u bytes were handed to HandleData (0 in the model = the whole chunk)
+                                      /\ CallDeliver(ev.side, IF ev.u >= Bytes(Head(wire[ev.side]).segs) THEN 0 ELSE ev.u)
               [] ev.op = "Cancel"  -> CallCancel
               [] ev.op = "Close"   -> CallClose(ev.side)
               [] OTHER             -> FALSE
